@@ -327,6 +327,16 @@ class Injector:
         self.undo = []
 
 
+def committed_rows(storage):
+    """number of event rows a second connection sees (= what is committed)"""
+    path = [r[2] for r in storage.conn.execute("PRAGMA database_list").fetchall() if r[1] == "main"][0]
+    con = sqlite3.connect(path, timeout=5)
+    try:
+        return con.execute("SELECT count(*) FROM events").fetchone()[0]
+    finally:
+        con.close()
+
+
 # ---------------------------------------------------------------------------
 # scenarios
 
@@ -470,6 +480,14 @@ def run_fault_rounds(backend, fac, rng, Event, Datastore, query2, QueryException
                 status = "other-error:" + type(ex).__name__
             finally:
                 inj.disarm()
+            # tie to Model/CommitReadFault.v (sqlite): the failing read's script is [Commit; ReadFails] -- when the statement
+            # that failed is the read of events / the count, everything written is durable at that point: a second
+            # connection sees as many event rows as the ledger has
+            durable = None
+            if backend == "sqlite" and status != "ok" and (fk[0] == "unreadable" or (fault.fired and fault.kind in ("select", "fetch")
+                                                                                    and "FROM events" in fault.fired)):
+                durable = committed_rows(storage)
+                count("fault-scenario:sqlite:second connection looked at the committed rows after the failing read")
             diffs, ops = led.read_back()
             count("fault-scenario:" + fk[0])
             count("fault-scenario:query-" + status.split(":")[0])
@@ -487,6 +505,10 @@ def run_fault_rounds(backend, fac, rng, Event, Datastore, query2, QueryException
                                                       f"as it was written: {d0['what']}"
                                                       + (f" ({d0['n_written']} written, {d0['n_stored']} stored)" if d0["what"] == "events" else ""),
                                        "replay": dict(replay, differences=diffs[:3])})
+            if durable is not None and durable != sum(len(v) for v in led.rows.values()) and not diffs:
+                rep["disagreements"].append([f"[sqlite] after a read that failed ({replay['fault']}; at {fault.fired}) a second connection sees "
+                                             f"{durable} event rows, {sum(len(v) for v in led.rows.values())} were written: the model's failing "
+                                             f"read is [Commit; ReadFails] (the commit comes before the SELECT)", replay])
             rep["cases"].append([[backend, "fault", list(fk), label, shape, r0, len(rep["cases"])], bool(n_pending and status != "ok")])
             # the event no read can decode goes away again (a recorded write), then the same query without a fault
             if far is not None:
